@@ -1,5 +1,7 @@
 import TangeloModel.Measure
 import TangeloProofs.Lemmas.SemBasic
+import TangeloProofs.Lemmas.Isometry
+import TangeloProofs.CycLaws
 import Mathlib.Algebra.BigOperators.Group.Finset.Basic
 import Mathlib.Algebra.Order.Ring.Rat
 /-!
@@ -104,6 +106,41 @@ theorem branch_probs_sum (w : R → R) (hw : w 0 = 0) (n : Nat) :
     | cmeasure q on0 on1 rest h0 h1 hr =>
       simp only [totalProb]
       rw [ih _ _ (h0.append hr), ih _ _ (h1.append hr), probs_add w hw n q ψ]
+
+/-! ## gate segments do preserve the norm: the hypothesis of `branch_probs_sum` is discharged for the gate set -/
+section gates
+variable {R : Type} [CommRing R] [StarRing R]
+
+theorem normN_wt (n : Nat) (ψ : State R) : normN (wt (R := R)) n ψ = normSq n ψ := rfl
+
+/-- a segment of gates between two measurements preserves the total weight |·|² -/
+theorem gates_preserve (k : Consts R) (L : k.Laws) (S : k.StarLaws) (n : Nat) (ops : List Op) (h : ∀ o ∈ ops, o.inReg n) :
+    ∀ ψ : State R, normN (wt (R := R)) n (semOps k ops ψ) = normN (wt (R := R)) n ψ :=
+  fun ψ => semOps_isometry k L S n ops h ψ
+
+/-- **Born rule, end to end for the gate set**: gates, a measurement, more gates, a measurement-controlled
+    choice between two gate lists, more gates — the probabilities of all outcome strings sum to the norm of
+    the input, for every register size and all gate lists inside the register -/
+theorem branch_probs_sum_gates (k : Consts R) (L : k.Laws) (S : k.StarLaws) (n : Nat)
+    (g0 g1 on0 on1 g2 : List Op) (q1 q2 : Nat)
+    (h0 : ∀ o ∈ g0, o.inReg n) (h1 : ∀ o ∈ g1, o.inReg n) (ha : ∀ o ∈ on0, o.inReg n) (hb : ∀ o ∈ on1, o.inReg n)
+    (h2 : ∀ o ∈ g2, o.inReg n) (fuel : Nat) (ψ : State R) :
+    totalProb (wt (R := R)) n fuel
+      [Step.apply (semOps k g0), Step.measure q1, Step.apply (semOps k g1),
+       Step.cmeasure q2 [Step.apply (semOps k on0)] [Step.apply (semOps k on1)], Step.apply (semOps k g2)] ψ
+      = normSq n ψ := by
+  have hw : wt (0 : R) = 0 := by simp [wt]
+  rw [branch_probs_sum (wt (R := R)) hw n fuel _ ψ]
+  · rfl
+  · refine AllPreserve.apply _ _ (gates_preserve k L S n g0 h0) ?_
+    refine AllPreserve.measure _ _ ?_
+    refine AllPreserve.apply _ _ (gates_preserve k L S n g1 h1) ?_
+    refine AllPreserve.cmeasure _ _ _ _ ?_ ?_ ?_
+    · exact AllPreserve.apply _ _ (gates_preserve k L S n on0 ha) AllPreserve.nil
+    · exact AllPreserve.apply _ _ (gates_preserve k L S n on1 hb) AllPreserve.nil
+    · exact AllPreserve.apply _ _ (gates_preserve k L S n g2 h2) AllPreserve.nil
+
+end gates
 
 /-! ## splitting joint frequencies into mid-circuit and final parts conserves the total -/
 
